@@ -20,6 +20,7 @@ EXPLANATION = (
 EXPLANATION += (' The scheduler loop is left early (break / return) only on a path that established that the model is no longer running. Premise: all of C01 (priority order, queue holds each registered system once).')
 EXPLANATION += (' add_system / remove_system / clean_up write the registry and the queue and nothing else of the tabled model state; overrides of System.clean_up hand the removal on to super().clean_up on every path.')
 EXPLANATION += (' (System.model included.)')
+EXPLANATION += (' SystemNotFoundError is an ordinary Exception whose constructor only formats; no package function calls System.clean_up().')
 ASSUMPTIONS = ["G6 open-world callbacks may call any public method", "list iterator index semantics (language fact)"]
 
 
@@ -245,6 +246,22 @@ def run(cx: Cx):
                              f"nothing else of the model", where=w.where)
             else:
                 cx.ok('R-DISC', f"{q.rsplit('.', 2)[-2]}.{f1.name} writes the registry and the queue only", where=cx.where(f1), function=q)
+        # the documented "no such system" error reaches the caller as that error, whatever the identifier is (a tuple id and a
+        # '%s' % id message: the constructor raises TypeError, a guarded removal no longer catches it and the step is abandoned)
+        from .common import check_error_ctor_pure, check_error_is_plain_exception
+        check_error_is_plain_exception(cx, CORE + 'SystemNotFoundError')
+        check_error_ctor_pure(cx, cx.prog.cls(CORE + 'SystemNotFoundError'))
+        # nobody in the package retires a system on its own initiative: clean_up() is for the model's code to call (a collector that
+        # unregisters itself "at the end of its window" drops the last beat; an alias that goes through clean_up() runs user code)
+        strays = [(k, ev) for k, ev in cx.effects.callers_of(cu2) if not (ev.data.get('via') == 'super')]
+        if strays:
+            k, ev = strays[0]
+            kf = cx.prog.functions.get(k.split('#')[0])
+            cx.violation('R-DISC', k, 'package-never-retires-a-system-itself',
+                         f"{k} calls clean_up(): the package removes a system only when asked through remove_system - a system that "
+                         f"stays registered for the whole timestep runs in it", where=cx.where(kf, ev.line) if kf else '')
+        else:
+            cx.ok('R-DISC', 'no package function calls System.clean_up()', where=cx.where(cu2), function=cu2.qualname)
         # ... for every kind of system the package ships: an override may do more (flush what it holds), but it hands the removal on
         from .common import check_overrides_forward
         check_overrides_forward(cx, CORE + 'System', ['clean_up'], rule='R-PAIR')
